@@ -32,6 +32,11 @@ func newRtView(in *inst) (*rtView, string) {
 	if v.initFn == nil {
 		return nil, "method Init not found"
 	}
+	if in.repo != nil {
+		// the checked-in instance: which optional closures exist is read off the file
+		in.Cfg.Bools["HasDot"] = v.cl["matchDot"] != nil
+		in.Cfg.Bools["HasString"] = v.cl["matchString"] != nil
+	}
 	named := map[*ssa.Function]bool{}
 	for _, f := range v.cl {
 		named[f] = true
